@@ -13,7 +13,9 @@ HashEnd == {6}        \* titles that end in '#': unambiguous only with closing h
 Bodies == << "plain body\n\n", "a & b < c > \"q\" 'x' &amp; &#10;\n\n", "", "tab\there  two\nline2\n\n", "* item <b>\n* two\n\n", "    code & <pre>\n\n" >>
 Pres   == << "", "pre <amble> & \"text\"\n\n" >>
 Metas  == << <<>>, << [k |-> "Title", n |-> "title", v |-> "My Title"] >>, << [k |-> "Title", n |-> "title", v |-> "T <1>"], [k |-> "Author", n |-> "author", v |-> "A \"B\" C"] >>,
-           << [k |-> "Title", n |-> "title", v |-> "B"], [k |-> "Base Header Level", n |-> "baseheaderlevel", v |-> "2"] >> >>
+           << [k |-> "Title", n |-> "title", v |-> "B"], [k |-> "Base Header Level", n |-> "baseheaderlevel", v |-> "2"] >>,
+           \* keys that re-configure other writers must not touch this one
+           << [k |-> "LaTeX Mode", n |-> "latexmode", v |-> "memoir"], [k |-> "HTML Header Level", n |-> "htmlheaderlevel", v |-> "3"], [k |-> "Language", n |-> "language", v |-> "de"] >> >>
 
 RECURSIVE Cat(_), Rep(_, _)
 Cat(ss) == IF ss = <<>> THEN "" ELSE Head(ss) \o Cat(Tail(ss))
